@@ -70,7 +70,7 @@ class C41(Prop):
     props_file = "Props/C41.v"
     preamble = ("From Coq Require Import List ZArith QArith.\nImport ListNotations.\n"
                 "From PP Require Import Model.C41.\n")
-    n_cases = (220, 4000)
+    n_cases = (160, 3000)
     design_ref = "DESIGN.md §5 C41, §6/§6.1 C41"
     level_text = (
         "Coq theorems (exact rationals, any dimension, any resolution >= 2 per axis, any "
